@@ -170,6 +170,9 @@ func runConc(phase string, i int, rng *rand.Rand) (res worker.Result) {
 	}
 
 	G := 4 + rng.IntN(13)
+	if len(pool) == 1 && G > 10 {
+		G = 4 + rng.IntN(7) // bounds the width of the single partition's linearizability search
+	}
 	type plan struct {
 		kind, addr string
 		c          cred
@@ -373,7 +376,7 @@ func runConc(phase string, i int, rng *rand.Rand) (res worker.Result) {
 		w["final_observations"] = finals
 		return w
 	}
-	switch porcupine.CheckOperationsTimeout(registerModel, ops, 2*time.Minute) {
+	switch porcupine.CheckOperationsTimeout(registerModel, ops, time.Minute) {
 	case porcupine.Unknown:
 		res.Inconc = fmt.Sprintf("conc case %d: linearizability search did not finish", i)
 	case porcupine.Illegal:
